@@ -370,6 +370,14 @@ def free_cases(draw, tier):
     spec = draw(gen.diagrams("rigid", max_boxes=7, max_width=5,
                              names=["a", "b"],
                              kinds=("box", "dagger", "cup", "cap", "cup")))
+    if draw(st.integers(0, 3)) == 0:
+        # a cap and a cup in zig-zag position whose outer legs differ: not a
+        # snake, both hands, with or without something in between
+        fake = gen.fake_snake(
+            spec, draw(st.integers(0, 4)), draw(st.booleans()),
+            draw(st.sampled_from([-1, 1])),
+            draw(st.sampled_from([None, "scalar", "state", "endo"])))
+        spec = fake or spec
     interp = draw(gen.interpretations([spec], max_dim=2))
     return {"d": spec, "interp": interp, "left": draw(st.booleans())}
 
